@@ -69,9 +69,15 @@ Theorem gen_downsample_model {X} (d : X) (xs : list X) (maxseqs : option nat) (i
   = Some (downsample d xs maxseqs (draw (match maxseqs with Some m => m | None => 0 end))).
 Proof.
   unfold gen_downsample, gen_downsample_branch, downsample, df_sample, np_choice.
-  destruct maxseqs as [m|]; cbn [orb]; [|reflexivity].
-  destruct (Nat.leb (length xs) m); [reflexivity|].
-  destruct is_df; reflexivity.
+  destruct maxseqs as [m|]; cbn [orb negb andb]; [|reflexivity].
+  (* the early-return test in any equivalent spelling (`len(seqs) <= maxseqs`, `maxseqs >= len(seqs)`, `not len(seqs) > maxseqs`) *)
+  destruct (Nat.leb_spec (length xs) m);
+    repeat match goal with
+    | |- context [if Nat.ltb ?a ?b then _ else _] => destruct (Nat.ltb_spec a b)
+    | |- context [if Nat.leb ?a ?b then _ else _] => destruct (Nat.leb_spec a b)
+    | |- context [if negb (Nat.ltb ?a ?b) then _ else _] => destruct (Nat.ltb_spec a b)
+    | |- context [if negb (Nat.leb ?a ?b) then _ else _] => destruct (Nat.leb_spec a b)
+    end; cbn [negb]; try (exfalso; lia); try reflexivity; destruct is_df; reflexivity.
 Qed.
 
 (* seqs is None: returned as it is, whatever maxseqs *)
